@@ -15,25 +15,25 @@ HERE = os.path.dirname(os.path.dirname(os.path.abspath(__file__)))
 
 AVOID = {
     "C01": "the collection index grids of the coplanar-lines branch, the dtype conversion of the arguments, and the tolerance of the linear-dependence check in _join_meet_duality, and the single/collection path switch of the coplanar-lines branch, and the alignment of collection axes in TensorDiagram.calculate, and a snap-to-zero of small result coordinates, and the line/point contraction of the subspace*point branch, and the covariant / contravariant conversion of 3D lines, and the power-of-two normalisation of results, and shared work arrays / caches that leak state between calls (covered by the previous round), and the two-argument constructor path of Line, and an affine solve for three planes, and the width test of the dtype widening in TensorDiagram.calculate, and a shares-memory test between the arguments of _join_meet_duality",
-    "C02": "the np.all(coplanar) test, the LinearDependenceError mask logic in _join_meet_duality, and Tensor.is_zero, and a fast path in LineTensor.meet, and the de-duplication of repeated argument objects in _join_meet_duality, and the pivot selection of the coplanar-lines collection path, and a reduction of n-ary join/meet to binary calls, and the narrow-integer widening in TensorDiagram.calculate, and the order of the error branches for 3D line pairs, and shared work arrays / caches that leak state between calls (covered by the previous round), and the method form PointTensor.join, and a parametric line / plane meet, and the axes of the power-of-two rescaling of join/meet results, and the base classes of the exception types",
+    "C02": "the np.all(coplanar) test, the LinearDependenceError mask logic in _join_meet_duality, and Tensor.is_zero, and a fast path in LineTensor.meet, and the de-duplication of repeated argument objects in _join_meet_duality, and the pivot selection of the coplanar-lines collection path, and a reduction of n-ary join/meet to binary calls, and the narrow-integer widening in TensorDiagram.calculate, and the order of the error branches for 3D line pairs, and shared work arrays / caches that leak state between calls (covered by the previous round), and the method form PointTensor.join, and a parametric line / plane meet, and the axes of the power-of-two rescaling of join/meet results, and the base classes of the exception types, and the covariant/contravariant labels of LineTensor.__getitem__ and the segment branch of PolygonTensor.intersect",
     "C03": "PolygonTensor.contains, rotation() and Conic.from_tangent, and SegmentTensor.contains, and the last-coordinate test in PointLikeTensor.__mul__/__truediv__, and RegularPolygon.center, and the pivot of QuadricTensor.components, and the narrow-integer widening in TensorDiagram.calculate, and Simplex.volume, and shared work arrays / caches that leak state between calls (covered by the previous round), and the reversed-orientation branch of polytope ==, and a Householder formula in PlaneTensor.mirror, and the order of the dependence test and the rescaling in _join_meet_duality, and the comparison of the common end point of collinear segments in SegmentTensor.intersect",
-    "C04": "TensorCollection.__iter__, the threshold in QuadricTensor.components and the early return of is_coplanar, and the early return of the 3D branch of PolygonTensor.contains, and the squeeze in the 3D branch of QuadricTensor.intersect, and TransformationTensor.__pow__ for power 0, and PointLikeTensor._normalize_array, and the pivot reshape of the coplanar-lines branch, and the coincidence mask of crossratio, and shared work arrays / caches that leak state between calls (covered by the previous round), and the vertex axis in PolygonTensor.__init__, and the normalisation in the 2D branch of Triangle.contains, and the sign pattern of the large-batch branch of utils.math.adjugate, and LineTensor.__getitem__ / the index types of elements of covariant line collections",
+    "C04": "TensorCollection.__iter__, the threshold in QuadricTensor.components and the early return of is_coplanar, and the early return of the 3D branch of PolygonTensor.contains, and the squeeze in the 3D branch of QuadricTensor.intersect, and TransformationTensor.__pow__ for power 0, and PointLikeTensor._normalize_array, and the pivot reshape of the coplanar-lines branch, and the coincidence mask of crossratio, and shared work arrays / caches that leak state between calls (covered by the previous round), and the vertex axis in PolygonTensor.__init__, and the normalisation in the 2D branch of Triangle.contains, and the sign pattern of the large-batch branch of utils.math.adjugate, and LineTensor.__getitem__ / the index types of elements of covariant line collections, and SegmentCollection.expand_dims and QuadricTensor.components for collections of mixed reducibility",
     "C05": "TensorDiagram.add_node, the KroneckerDelta cache and the dimension check of TensorDiagram.add_edge, and the sign computation of LeviCivitaTensor, and the dtype widening in TensorDiagram.calculate, and the construction of KroneckerDelta from epsilon tensors, and the free-index check of TensorDiagram.add_edge, and an edge-less shortcut in TensorDiagram.calculate, and the recursion of KroneckerDelta, and shared work arrays / caches that leak state between calls (covered by the previous round), and TensorDiagram.copy, and a tensordot fast path for two-node diagrams, and the order in which leading collection axes of later nodes are inserted in TensorDiagram.calculate, and the order of popping indices and raising in TensorDiagram.add_edge",
-    "C06": "TransformationTensor.inverse, TransformationTensor.__pow__ and TransformationTensor.__apply__, and Tensor.__apply__, and the dtype of the result of utils.math.inv, and the cached plane in PolygonTensor.__apply__, and PolytopeTensor.__apply__, and the sign pattern of the batched adjugate, and an override of __apply__ for quadrics, and shared work arrays / caches that leak state between calls (covered by the previous round), and a fast path in TransformationTensor.__mul__, and exponentiation by squaring in Tensor.__pow__, and a rescaling of the cached line in SegmentTensor.__apply__, and the broadcasting of the reciprocal determinants in the large-batch branch of utils.math.inv",
+    "C06": "TransformationTensor.inverse, TransformationTensor.__pow__ and TransformationTensor.__apply__, and Tensor.__apply__, and the dtype of the result of utils.math.inv, and the cached plane in PolygonTensor.__apply__, and PolytopeTensor.__apply__, and the sign pattern of the batched adjugate, and an override of __apply__ for quadrics, and shared work arrays / caches that leak state between calls (covered by the previous round), and a fast path in TransformationTensor.__mul__, and exponentiation by squaring in Tensor.__pow__, and a rescaling of the cached line in SegmentTensor.__apply__, and the broadcasting of the reciprocal determinants in the large-batch branch of utils.math.inv, and the alignment of collection axes in TensorDiagram.calculate",
     "C07": "TransformationTensor.inverse, PolygonTensor.__apply__ and memoising QuadricTensor.dual, and a fast path in PointLikeTensor.__apply__, and the 3D-lines branch of crossratio, and the edge list of Tensor.__apply__, and a symmetrisation in QuadricTensor.__apply__, and the alignment of extra leading collection axes in TensorDiagram.calculate, and an override of __apply__ for polyhedra, and shared work arrays / caches that leak state between calls (covered by the previous round), and SubspaceTensor.__add__, and a closed form for the meet of coplanar 3D lines, and a fast path of utils.math.inv for matrices with unit columns, and an __apply__ override of LineTensor",
-    "C08": "translation(), reflection() and Transformation.from_points, and Transformation.from_points_and_conics, and the angle handling of rotation(), and an affine fast path in TransformationTensor.inverse, and the axis normalisation of rotation(), and the dtype of affine_transform, and scaling(), and shared work arrays / caches that leak state between calls (covered by the previous round), and TransformationTensor.__pow__, and an alignment-angle construction of rotation(angle, axis), and np.reciprocal of the determinant in utils.math.inv, and a complex-conjugate shortcut in LineTensor.mirror",
+    "C08": "translation(), reflection() and Transformation.from_points, and Transformation.from_points_and_conics, and the angle handling of rotation(), and an affine fast path in TransformationTensor.inverse, and the axis normalisation of rotation(), and the dtype of affine_transform, and scaling(), and shared work arrays / caches that leak state between calls (covered by the previous round), and TransformationTensor.__pow__, and an alignment-angle construction of rotation(angle, axis), and np.reciprocal of the determinant in utils.math.inv, and a complex-conjugate shortcut in LineTensor.mirror, and the composition of a Transformation with a TransformationCollection in TransformationTensor.__apply__",
     "C09": "the plane/plane branch and the equality short-cut of dist, and the dtype handling of _point_dist, and the kind dispatch of angle(), and the plane/line branch of dist, and a fast path for 2D point/line distance, and the 3D three-point form of angle(), and the projection coordinate in the 3D branch of PolygonTensor.contains, and the 2D branch of _point_dist, and shared work arrays / caches that leak state between calls (covered by the previous round), and the segment / point branch of dist, and an atan2 fast path of the three-point angle, and a Rectangle.contains override (4-vertex polygons taken out of collections are Rectangle objects), and a face-culling shortcut in dist(point, polyhedron)",
-    "C10": "SubspaceTensor.general_point, is_coplanar and the contains-branch of LineTensor.perpendicular, and PlaneTensor.basis_matrix, and SubspaceTensor.is_parallel, and the 2D branch of LineTensor.direction, and LineTensor.mirror, and the closed-form det for 64 and more matrices, and LineTensor.base_point, and shared work arrays / caches that leak state between calls (covered by the previous round), and SubspaceTensor.parallel, and a Householder formula in PlaneTensor.mirror, and a dot-product shortcut for is_perpendicular of planes, and a complex-conjugate shortcut in angle_bisectors",
+    "C10": "SubspaceTensor.general_point, is_coplanar and the contains-branch of LineTensor.perpendicular, and PlaneTensor.basis_matrix, and SubspaceTensor.is_parallel, and the 2D branch of LineTensor.direction, and LineTensor.mirror, and the closed-form det for 64 and more matrices, and LineTensor.base_point, and shared work arrays / caches that leak state between calls (covered by the previous round), and SubspaceTensor.parallel, and a Householder formula in PlaneTensor.mirror, and a dot-product shortcut for is_perpendicular of planes, and a complex-conjugate shortcut in angle_bisectors, and the coplanarity flag of the 3D branch of is_cocircular",
     "C11": "the 3D-lines branch, the a == b shortcut and the collinear-points reduction of crossratio, and SubspaceTensor.general_point as used by harmonic_set, and the collinearity check of the points branch of crossratio, and a midpoint shortcut in harmonic_set, and the 2D-lines branch of crossratio, and the shape of the closed-form det for 64 and more matrices, and the 1D branch of crossratio, and shared work arrays / caches that leak state between calls (covered by the previous round), and the normalisation of the intermediate results in harmonic_set, and a reduction to directions in the from_point branch of crossratio, and a coaxiality check with an absolute tolerance in crossratio of planes, and the final quotient of crossratio",
     "C12": "PolygonTensor._normalized_projection, LineTensor.perpendicular and PointLikeTensor._normalize_array, and the KroneckerDelta cache, and dtype casts of the node arrays in TensorDiagram.calculate, and the cached line in SegmentTensor.__apply__, and SegmentCollection.expand_dims, and the 2x2 branch of adjugate, and the normalize_matrix branch of the quadric constructor, and shared work arrays / caches that leak state between calls (covered by the previous round), and in-place normalisation of the axis in rotation(), and a cross-product formula in Triangle.circumcenter, and a shallow copy of a constructor argument that is then written to (Cylinder), and a rebinding fast path in Tensor.__setitem__",
-    "C13": "Cone.__init__, Ellipse.__init__ and Sphere.__init__, and Conic.foci, and the candidate ranking in Conic.from_tangent, and Sphere.radius, and Conic.from_points, and SubspaceTensor.general_point, and the unit() helper of from_tangent, and shared work arrays / caches that leak state between calls (covered by the previous round), and Circle.area, and a Euclidean construction in Conic.from_foci, and np.cross on raw integer arrays in Conic.from_crossratio, and Sphere.area",
+    "C13": "Cone.__init__, Ellipse.__init__ and Sphere.__init__, and Conic.foci, and the candidate ranking in Conic.from_tangent, and Sphere.radius, and Conic.from_points, and SubspaceTensor.general_point, and the unit() helper of from_tangent, and shared work arrays / caches that leak state between calls (covered by the previous round), and Circle.area, and a Euclidean construction in Conic.from_foci, and np.cross on raw integer arrays in Conic.from_crossratio, and Sphere.area, and Circle.radius and the direction argument of Cylinder",
     "C14": "the pivot argmax in QuadricTensor.components, QuadricTensor.dual and the plane selection for LineCollections in the 3D branch of QuadricTensor.intersect, and the single-Line path of the 3D branch of QuadricTensor.intersect, and QuadricTensor.is_degenerate, and QuadricTensor.__getitem__, and Conic.polar, and the NotReducible test in QuadricTensor.components, and the all/any decision on is_degenerate in QuadricTensor.intersect, and shared work arrays / caches that leak state between calls (covered by the previous round), and QuadricTensor.is_tangent, and a gradient construction in QuadricTensor.tangent, and the rank-one threshold of QuadricTensor.components, and the real part in QuadricTensor.contains",
-    "C15": "QuadricTensor.components' pivot, the triple-root shortcut in roots() and the pencil computation in Conic.intersect, and the dispatch on the degenerate operand in Conic.intersect, and the reducibility guard of QuadricTensor.components, and the batched path of utils.math.adjugate, and QuadricTensor.is_degenerate, and the index order of hat_matrix for n = 4, and the component lines of the degenerate pencil member in Conic.intersect, and shared work arrays / caches that leak state between calls (covered by the previous round), and the scale of the double-line test in components, and an affine parametrisation in the line branch of Conic.intersect, and the branch criterion (sign of h) of utils.math.roots, and a shortcut for conics with proportional quadratic parts in Conic.intersect",
+    "C15": "QuadricTensor.components' pivot, the triple-root shortcut in roots() and the pencil computation in Conic.intersect, and the dispatch on the degenerate operand in Conic.intersect, and the reducibility guard of QuadricTensor.components, and the batched path of utils.math.adjugate, and QuadricTensor.is_degenerate, and the index order of hat_matrix for n = 4, and the component lines of the degenerate pencil member in Conic.intersect, and shared work arrays / caches that leak state between calls (covered by the previous round), and the scale of the double-line test in components, and an affine parametrisation in the line branch of Conic.intersect, and the branch criterion (sign of h) of utils.math.roots, and a shortcut for conics with proportional quadratic parts in Conic.intersect, and the merging loop over the component lines in Conic.intersect",
     "C16": "the 'coplanar &' of PolygonTensor.contains, Triangle.contains and memoising in SegmentTensor.contains, and the vertex-ordering step of the ray casting in PolygonTensor.contains, and the single-Point fast path of the 3D branch of PolygonTensor.contains, and the supporting plane in PolygonTensor.__apply__, and the normalisation of the end points in SegmentTensor.contains, and PointLikeTensor._normalize_array, and the ray direction for points at infinity in PolygonTensor.contains, and shared work arrays / caches that leak state between calls (covered by the previous round), and the dropped coordinate in the 3D branch of PolygonTensor.contains, and a barycentric test in SegmentTensor.contains, and the tolerance of the edge test in the ray casting of PolygonTensor.contains, and the axis arithmetic of SegmentCollection.expand_dims",
-    "C17": "Polygon.centroid, PolytopeTensor.__eq__ and PolygonTensor.area, and SegmentTensor.midpoint, and Simplex.volume, and RegularPolygon.center, and RegularPolygon.radius, and the pivot of PlaneTensor.basis_matrix, and Triangle.circumcenter, and shared work arrays / caches that leak state between calls (covered by the previous round), and SegmentTensor.length, and a fan triangulation in Polyhedron.area, and a Rectangle.centroid override, and a RegularPolygon.area override",
+    "C17": "Polygon.centroid, PolytopeTensor.__eq__ and PolygonTensor.area, and SegmentTensor.midpoint, and Simplex.volume, and RegularPolygon.center, and RegularPolygon.radius, and the pivot of PlaneTensor.basis_matrix, and Triangle.circumcenter, and shared work arrays / caches that leak state between calls (covered by the previous round), and SegmentTensor.length, and a fan triangulation in Polyhedron.area, and a Rectangle.centroid override, and a RegularPolygon.area override, and Cuboid.__init__ and Segment.midpoint",
     "C18": "PolygonTensor.intersect's LinearDependenceError handler, the skew-segment branch of SegmentTensor.intersect and memoising Polyhedron.faces, and the membership filter of the segment branch of PolygonTensor.intersect, and SegmentTensor.contains, and the duplicate removal of Polyhedron.intersect, and the is_zero filter of the line/plane branch of SegmentTensor.intersect, and the projection coordinate in the 3D branch of PolygonTensor.contains, and the collinear end-point block of SegmentTensor.intersect, and shared work arrays / caches that leak state between calls (covered by the previous round), and the dispatch of SegmentTensor.intersect for polyhedra, and a sign-change method in the 2D branch of PolygonTensor.intersect, and the vertex rule (is_multiple vs ==) of the ray casting in PolygonTensor.contains, and a cap on the number of points returned by Polyhedron.intersect",
-    "C19": "Tensor._get_index_mapping, Tensor.transpose and Tensor._elementwise_result, and the scalar branch of PointLikeTensor.__mul__/__truediv__, and Tensor.tensor_product, and Tensor.__rsub__, and PointLikeTensor.__sub__, and is_numerical_scalar, and TensorCollection.expand_dims, and shared work arrays / caches that leak state between calls (covered by the previous round), and QuadricTensor.__add__ / __sub__, and Tensor.__sub__ through negation, and the last coordinate of point + point, and a scalar-index shortcut in Tensor.__getitem__",
-    "C20": "adjugate, the quadratic branch of roots and null_space, and is_multiple, and the singularity test of inv, and hat_matrix, and orth, and the closed-form det for complex matrices, and the repeated-root shortcut of roots, and shared work arrays / caches that leak state between calls (covered by the previous round), and the division by the determinant in inv, and a Schur-complement determinant for 4x4 matrices, and an absolute clamp of h in utils.math.roots, and the SVD variant in utils.math.null_space",
+    "C19": "Tensor._get_index_mapping, Tensor.transpose and Tensor._elementwise_result, and the scalar branch of PointLikeTensor.__mul__/__truediv__, and Tensor.tensor_product, and Tensor.__rsub__, and PointLikeTensor.__sub__, and is_numerical_scalar, and TensorCollection.expand_dims, and shared work arrays / caches that leak state between calls (covered by the previous round), and QuadricTensor.__add__ / __sub__, and Tensor.__sub__ through negation, and the last coordinate of point + point, and a scalar-index shortcut in Tensor.__getitem__, and maybe_dispatch_ufunc_to_dunder_op",
+    "C20": "adjugate, the quadratic branch of roots and null_space, and is_multiple, and the singularity test of inv, and hat_matrix, and orth, and the closed-form det for complex matrices, and the repeated-root shortcut of roots, and shared work arrays / caches that leak state between calls (covered by the previous round), and the division by the determinant in inv, and a Schur-complement determinant for 4x4 matrices, and an absolute clamp of h in utils.math.roots, and the SVD variant in utils.math.null_space, and _minor_indices / the minors branch of adjugate and the memory layout of the argument, and the cubic branch of roots",
 }
 
 EMPHASIS = {
